@@ -26,6 +26,12 @@ KEYWORDS = {"band", "bor", "bxor", "in", "like", "and", "or", "xor", "not", "bno
             "top", "distinct", "true", "false", "nil", "inout", "multilang", "conditional", "allversionsof", "phantomstoo"}
 
 
+# literals / comments holding multi-byte characters (3- and 4-byte code points, 2-byte letters): many more bytes than characters
+WIDE_STRINGS = ["'漢漢漢漢'", "'😀😀😀'", "'ééééééé'", "'漢 字 😀'", "'ß'", "'x漢y'"]
+COMMENTS = ["; a comment\n", "; a comment\n", "; 漢漢漢 コメント 😀\n", ";é\n"]
+TOP_COMMENTS = ["; top comment\n", "; top comment\n", "; 見出し 漢漢漢漢\n"]
+
+
 def N(kind, ident, kids=()):
     return (kind, ident, list(kids))
 
@@ -45,6 +51,10 @@ class Emit:
             v = str(self.r.below(100))
             return [v], N("terminal", v)
         if c == 1:
+            # string literals also with multi-byte characters: columns count CHARACTERS, the literal must not reach over
+            # the operator / operand that follows it on the line (the lexer once ended it at start + length in BYTES)
+            if self.r.chance(1, 3):
+                return [self.r.choice(WIDE_STRINGS)], N("terminal", "s%d" % 0)
             return ["'s%d'" % self.r.below(9)], N("terminal", "s%d" % 0)   # ident fixed up by caller (string value)
         if c == 2:
             return ["true"], N("terminal", "true")
@@ -380,7 +390,7 @@ class Emit:
             k = self.r.choice(["exit", "break", "continue"])
             return [k], N("terminal", k)
         if c == 11:
-            return ["; a comment\n"], N("comment", "comment")
+            return [self.r.choice(COMMENTS)], N("comment", "comment")
         if c == 12:
             nm = self.name("c")
             return ["const", nm, "=", "3"], N("const_decl", nm)
@@ -438,7 +448,7 @@ class Emit:
         c = self.r.below(8)
         if c == 0:
             nm = self.name("c")
-            v = self.r.choice(["7", "'s'"])
+            v = self.r.choice(["7", "'s'", "'漢漢漢'"])
             return ["const", nm, "=", v] + (["multiLang"] if self.r.chance(1, 5) else []), N("const_decl", nm)
         if c == 1:
             nm = self.name("t")
@@ -453,7 +463,7 @@ class Emit:
                     toks.append(m)
             return toks, N("gvar_decl", nm, [ty])
         if c == 3:
-            return ["; top comment\n"], N("comment", "comment")
+            return [self.r.choice(TOP_COMMENTS)], N("comment", "comment")
         if c == 4:
             nm = self.name("t")
             t, ty = self.tbasic()
